@@ -43,6 +43,7 @@ def catalogue(L, conformal, g3c_tools):
         ('inv', 1, lambda a, r: a.inv()), ('normal', 1, lambda a, r: a.normal()), ('pow2', 1, lambda a, r: a ** 2), ('pow0', 1, lambda a, r: a ** 0),
         ('pow1', 1, lambda a, r: a ** 1), ('pow1.0', 1, lambda a, r: a ** 1.0), ('pow3', 1, lambda a, r: a ** 3),
         ('isBlade', 1, lambda a, r: a.isBlade()), ('isVersor', 1, lambda a, r: a.isVersor()), ('astype', 1, lambda a, r: a.astype(np.float64)),
+        ('astype-same-nocopy', 1, lambda a, r: a.astype(a.value.dtype, copy=False)), ('astype-f64-nocopy', 1, lambda a, r: a.astype(np.float64, copy=False)),
         ('getitem', 1, lambda a, r: a[()]), ('blades_list', 1, lambda a, r: a.blades_list),
         ('project', 2, lambda a, b, r: a(1).project(b) if True else None), ('join', 2, lambda a, b, r: a(1).join(b(2))),
         ('meet', 2, lambda a, b, r: (a(2)).meet(b(2))), ('exp', 1, lambda a, r: (0.125 * a(2)).exp()),
@@ -427,6 +428,37 @@ def check_twin_layouts(res, rng):
                     MultiVector(Lk, np.ones(Lk.gaDims))(g)
 
 
+def check_blademap_purity(res, rng):
+    """a transformation built from a caller's list leaves that list alone and does not depend on how many maps were built from it:
+    the same expression evaluated repeatedly, before and after building further maps from the same list, is bit-identical"""
+    import numpy as np
+    import clifford as cf
+    from clifford import BladeMap, MultiVector
+    L1, b1 = cf.Cl(3)
+    L2, b2 = cf.Cl(1, 3, firstIdx=0)
+    site = dict(op='impure:blademap')
+    for with_scalars in (True, False):
+        pairs = [(b1['e1'], b2['e1'] * b2['e0']), (b1['e2'], b2['e2'] * b2['e0']), (b1['e3'], b2['e3'] * b2['e0']), (b1['e12'], b2['e12'])]
+        ids_before = [(id(x), id(y)) for x, y in pairs]
+        X = MultiVector(L1, np.array([int(v) for v in rng.integers(-4, 5, size=8)]) + np.array([3] + [0] * 7))
+        xv = X.value.copy()
+        res.case(('blademap', with_scalars, X.value.tolist()), nontrivial=True)
+        res.count('blademap_purity')
+        m1 = BladeMap(pairs, map_scalars=with_scalars)
+        r1 = m1(X).value.copy()
+        m2 = BladeMap(pairs, map_scalars=with_scalars)
+        r2 = m2(X).value.copy()
+        m3 = BladeMap(pairs, map_scalars=with_scalars)
+        r3, r1b = m3(X).value.copy(), m1(X).value.copy()
+        if [(id(x), id(y)) for x, y in pairs] != ids_before:
+            res.violate("BladeMap() modifies the caller's list of blade pairs", dict(site, map_scalars=with_scalars), len(pairs), len(ids_before),
+                        dict(site, what='argument list'))
+        if not (np.array_equal(r1, r2) and np.array_equal(r1, r3) and np.array_equal(r1, r1b) and np.array_equal(X.value, xv)):
+            res.violate('the same BladeMap expression evaluated repeatedly is not bit-identical (depends on the maps built before)',
+                        dict(site, map_scalars=with_scalars, X=xv.tolist()), [r1.tolist(), r2.tolist(), r3.tolist(), r1b.tolist()], r1.tolist(),
+                        dict(site, what='repeat'))
+
+
 def run_job(job, tier, seed):
     from harness import real
     import clifford as cf
@@ -435,6 +467,8 @@ def run_job(job, tier, seed):
     if job == 'history':
         with common.guard(res, 'twin layouts', {}):
             check_twin_layouts(res, rng)
+        with common.guard(res, 'blademap purity', {}):
+            check_blademap_purity(res, rng)
     if job in ('history', 'history_jit'):
         length = 50 if tier == 'quick' else 200
         nh = (3 if tier == 'quick' else 8) if job == 'history' else 1
